@@ -91,14 +91,22 @@ def monitor(s, a, rt):
             ids = [] if p[2] == "-" else p[2].split(",")
             if len(set(ids)) != len(ids):
                 fails.append(f"C13: allowed_events lists an event twice: {l}")
-            want = []
+            # declaration order = order of the transitions that carry the events; the order of several events
+            # written on *one* transition is not constrained (DESIGN 3.2)
+            want, seen = [], set()
             for t in eng.expanded_trans(s):
                 if t.src == val2idx[cur]:
-                    for e in t.events:
-                        if str(e) not in want:
-                            want.append(str(e))
-            if ids != want:
-                fails.append(f"C13: allowed_events in state {cur} is {ids}, expected {want} (declaration order)")
+                    grp = sorted({str(e) for e in t.events} - seen)
+                    if grp:
+                        want.append(grp)
+                        seen |= set(grp)
+            got, k = [], 0
+            for grp in want:
+                got.append(sorted(ids[k:k + len(grp)]))
+                k += len(grp)
+            if got != want or k != len(ids):
+                fails.append(f"C13: allowed_events in state {cur} is {ids}, expected {want} (declaration order of the "
+                             f"transitions; events of one transition in any order)")
         elif p[0] == "V":
             ids = [] if len(p) < 3 or p[2] == "" else p[2].split(",")
             if sorted(map(int, ids)) != sorted(declared):
